@@ -77,7 +77,83 @@ def ids_of_output(out):
     return res
 
 
+# reserved words of Color BASIC 1.2, Extended and Super Extended BASIC (manual word lists), the words the
+# tool generates itself, and BASIC09's words: each is tried as a name, alone and as a prefix / suffix of a name
+DECB_WORDS = ("FOR GO REM ELSE IF DATA PRINT ON INPUT END NEXT DIM READ RUN RESTORE RETURN STOP POKE CONT LIST CLEAR NEW CLOAD CSAVE OPEN CLOSE LLIST SET RESET CLS MOTOR SOUND AUDIO EXEC SKIPF "
+              "TAB TO SUB THEN NOT STEP OFF AND OR SGN INT ABS USR RND SIN PEEK LEN STR VAL ASC CHR EOF JOYSTK LEFT RIGHT MID POINT INKEY MEM "
+              "DEL EDIT TRON TROFF DEF LET LINE PCLS PSET PRESET SCREEN PCLEAR COLOR CIRCLE PAINT GET PUT DRAW PCOPY PMODE PLAY DLOAD RENUM FN USING ATN COS TAN EXP FIX LOG POS SQR HEX VARPTR INSTR "
+              "TIMER PPOINT STRING WIDTH PALETTE HSCREEN LPOKE HCLS HCOLOR HPAINT HCIRCLE HLINE HGET HPUT HBUFF HPRINT ERR BRK LOCATE HSTAT HSET HRESET HDRAW CMP RGB ATTR LPEEK BUTTON HPOINT "
+              "ERNO ERLIN GOTO GOSUB").split()
+TOOL_WORDS = "TMP TMP1 TMP_1 DISPLAY PLAY PID ERNO ERRNUM JOY0X JOY1Y ARR ARRA ARR_A DISPLAY_T PLAY_T BASE PROCEDURE".split()
+
+
+DOLLAR_FUNCTIONS = ("STR", "CHR", "LEFT", "RIGHT", "MID", "INKEY", "HEX", "STRING")
+
+
+def special_names():
+    words = list(DECB_WORDS) + TOOL_WORDS + [w for w in S.RESERVED if re.fullmatch(r"[A-Z][A-Z0-9]*", w)]
+    try:
+        from coco.b09 import grammar as G
+        words += [re.sub(r"[^A-Z0-9]", "", str(k)) for k in getattr(G, "KEYWORDS", ())]
+    except Exception:  # noqa
+        pass
+    out = []
+    for w in words:
+        if not re.fullmatch(r"[A-Z][A-Z0-9_]*", w):
+            continue
+        # a name that merely *starts* with a Color BASIC word is keyword + rest in Color BASIC too (NOTX = NOT X), so the
+        # suffixed spellings are tried only for the tool's own words
+        variants = (w, "X" + w, "X1" + w) if w in DECB_WORDS else (w, w + "X", w + "1", "X" + w, "X1" + w)
+        for n in variants:
+            if n in out or len(n) < 4 and not n.startswith(("REM",)) and n not in ("FN",):
+                continue  # names of <= 3 characters are all in the main enumeration
+            if n.startswith(("REM", "DATA")):
+                continue  # at the start of a statement these spell a comment / a DATA statement, not a variable
+            if n in DOLLAR_FUNCTIONS:
+                continue  # NAME$ is the function itself (STR$, INKEY$ ...) while NAME is an ordinary variable
+            if n[:2] in ("DO", "PI", "SQ"):
+                continue  # known finding F07-reserved-varname of C07
+            out.append(n)
+    return out
+
+
+def judge_special(n):
+    """one program per syntactic position (a refusal in one position must not hide another position)."""
+    text, exp = program(n)
+    lines = text.splitlines()
+    verdicts = []
+    outcomes = []
+    for ln in lines[:-1]:
+        num = int(ln.split()[0])
+        prog = ln + "\n" + lines[-1] + "\n"
+        r = tool.convert(prog, initialize_vars=False, add_standard_prefix=False)
+        if not r.ok:
+            outcomes.append("refused" if r.refused else r.kind)
+            continue
+        outcomes.append("ok")
+        try:
+            got = ids_of_output(r.text)
+        except S.B09SyntaxError as e:
+            verdicts.append(("unparsable-output", f"position line {num} ({ln!r}): {e}"))
+            continue
+        have = got.get(num, Counter())  # (the prologue region holds the declarations of undimensioned arrays)
+        want = exp[num]
+        if have != want:
+            verdicts.append(("identifier-mapping", f"position line {num} ({ln!r}): identifiers {dict(have)} expected {dict(want)}"))
+        for i in have:
+            if not USER_ID.match(i):
+                verdicts.append(("identifier-shape", f"emitted user identifier {i!r} is not (arr_)?[A-Z][A-Z0-9]?$?"))
+    bad = [o for o in outcomes if o not in ("ok", "refused")]
+    if bad:
+        return bad[0], None
+    if "ok" not in outcomes:
+        return "refused", None
+    return "ok", verdicts[:2]
+
+
 def judge(n):
+    if isinstance(n, tuple):
+        return judge_special(n[1])
     text, exp = program(n)
     r = tool.convert(text, initialize_vars=True, add_standard_prefix=False)
     if not r.ok:
@@ -135,12 +211,19 @@ def run(run):
                 "distinct = names; non-trivial = accepted by the tool (refused names are counted)")
     run.assumptions = ["Color BASIC identity: first two characters + type suffix + kind", "generated identifiers: tmp_N[$], display, play, pid, erno, errnum, joy0x.."]
     ns = names(run)
+    sp = [("special", n) for n in special_names()]
+    run.states += len(sp)
+    run.transitions += len(sp)
+    ns = ns + sp
     i = 0
     acc = 0
     for res in core.pmap(work, ns, chunk=400):
         for outcome, v in res:
             n = ns[i]
             i += 1
+            special = isinstance(n, tuple)
+            if special:
+                n = n[1]
             run.evaluations += 1
             run.count("names:" + outcome)
             if outcome == "ok":
@@ -148,10 +231,10 @@ def run(run):
                 if acc % 6000 == 1:
                     run.sample({"name": n, "program": program(n)[0], "verdict": v})
                 for sym, detail in v:
-                    feats = {"len%d" % len(n)}
+                    feats = {"len%d" % len(n)} | ({"special-name"} if special else set())
                     if len(n) >= 2 and n[1].isdigit():
                         feats.add("second-char-digit")
-                    run.violation(sym, feats, {"name": n}, f"name {n}: {detail}")
+                    run.violation(sym, feats, {"name": n, "special": special}, f"name {n}: {detail}")
             elif outcome == "unparsable" and n[:2] in ("DO", "PI", "SQ"):
                 run.count("names:b09-reserved (known finding F07-reserved-varname of C07)")
             elif outcome == "unparsable":
@@ -162,5 +245,5 @@ def run(run):
 
 
 def replay(case):
-    o, v = judge(case["name"])
+    o, v = judge(("special", case["name"]) if case.get("special") else case["name"])
     return {"outcome": o, "violations": v if isinstance(v, list) else [v]}
